@@ -168,6 +168,21 @@ theorem exact_day_count (y mo d h mi s ns : Int) (ts : TS) (L : List Date)
 
 /-! ### accept / reject -/
 
+/-- REJECTION needs no restriction on hour = 24 / nanosecond = 10⁹ (the property leaves those open only when
+    everything else is fine): whatever the specification requires to be rejected — e.g. second = 60 at 24:59 of a
+    leap-second day, "second = 60 at any other time of day" — is an error, never a value (outside D10).
+    (A seeded change that accepted 24:59:60 was first missed because hour = 24 was never generated.) -/
+theorem must_reject_is_rejected (y mo d h mi s ns : Int) (ts : TS) (hy : -3000000 ≤ y ∧ y ≤ 3000000)
+    (hmo : 0 ≤ mo) (hd : 0 ≤ d) (hh : 0 ≤ h) (hmi : 0 ≤ mi) (hs : 0 ≤ s) (hns : 0 ≤ ns)
+    (hD10 : Cal.d10class y mo d = false)
+    (hrej : mustReject iersLeapDates ⟨y, mo, d⟩ h mi s ns = true) :
+    Cal.maybeFromGregorian y mo d h mi s ns ts = .err := by
+  rw [maybeFromGregorian_eq y mo d h mi s ns ts hy,
+      Cal.validCore_rejects y mo d h mi s ns hmo hd hh hmi hs hns hD10 hrej]
+  rfl
+
+example : mustReject iersLeapDates ⟨2016, 12, 31⟩ 24 59 60 0 = true ∧ Cal.d10class 2016 12 31 = false := by decide
+
 /-- The full statement of the property's accept/reject clause (for reference; it is FALSE of the
     code on the class D10, see `d10_counterexample`): on every field tuple outside the two points the
     property leaves open, an error is returned iff the specification requires rejection. -/
